@@ -60,6 +60,13 @@ def isnan(kind, v):
 def expectations(cases, infos, oracle):
     """cases: parsed cases; fills c['exp'] = None (undefined: skip) | dict(ret, retmask, writes, nan_at) | 'nodoc'"""
     byname = {i.name: i for i in infos}
+    for c in cases:
+        if G.is_special(c):            # stack allocation, switch, indirect jumps, calls: expectation computed here
+            c['info'] = SPECIAL_INFO
+            c['args'] = []
+            c['exp'] = G.special_expect(c)
+    allcases = cases
+    cases = [c for c in allcases if not G.is_special(c)]
     # phase A: values of memory sources
     req, where = [], []
     for c in cases:
@@ -141,6 +148,9 @@ def expectations(cases, infos, oracle):
             e['ret'] = flag
             for i, b in enumerate(G.le_bytes(flag, 8)):
                 writes[112 + i] = b
+            if c.get('far') and G.far_executed(c, flag):     # the filler that makes the branch target far was on the executed path
+                for i, b in enumerate(G.le_bytes(G.far_value(), 8)):
+                    writes[240 + i] = b
         if d is not None:
             c['d'] = d
             kind = info.res
@@ -195,7 +205,14 @@ def expectations(cases, infos, oracle):
         hx = a.split()[1]
         for i in range(0, len(hx), 2):
             c['exp']['writes'][c['dst_off'] + i // 2] = int(hx[i:i + 2], 16)
-    return cases
+    return allcases
+
+
+class _SpecialInfo:
+    name, res, args, mask, num = '@special', 'i', 'ii', G.M64, -1
+
+
+SPECIAL_INFO = _SpecialInfo()
 
 
 def check_obs(c, obs):
@@ -395,6 +412,195 @@ def generate(chk, infos, quick, c20=False):
                     for i, k in enumerate(info.args)]
             n += 1
             lines.append(G.gen_case(info, rng, c20=c20, cid= 't%d' % n, vals=vals, shapes=shapes, dst='r', pre=pre, post=post))
+    lines += aimed_lines(chk, infos, quick, c20, byname)
+    return lines
+
+
+IMM_CLASS = {'i0': [0, 1, -1, 5, 127, -128, 100], 'i2': [128, -129, 0x7fffffff, -0x80000000, 0x12345, 32767, 32768, -32769, 255, 256, 65535],
+             'i3': [0x80000000, -0x80000001, 1 << 40, (1 << 63) - 1, -(1 << 63), 0xffffffff, 0x100000000, -(1 << 32)]}
+
+
+def class_operand(cls, info, pos, rng, c20):
+    """an operand text of class cls: 'r' | 'i0' 'i2' 'i3' (imm8 / imm32 / imm64 range) | 'm<ty>'"""
+    shift = pos == 1 and 'SH' in info.name
+    if cls in IMM_CLASS:
+        v = rng.randrange(64 if not info.name.endswith('S') else 32) if shift else rng.choice(IMM_CLASS[cls])
+        return ('u' if v >= 0 and rng.random() < 0.2 else 'i') + ':%x' % (v & G.M64)
+    val = rng.choice(G.grid_for('i', rng, info.name, pos)) if rng.random() < 0.6 else G.rand_val('i', rng, info.name, pos)
+    if cls == 'r':
+        return 'r:%x' % val
+    ty = cls[1:]
+    return G.mem_desc(rng, ty, ['b', 'bd', 'bi', 'bid'] if c20 else G.FORMS) + ':%x' % (val & ((1 << (8 * G.TYPE_SIZE[ty])) - 1))
+
+
+def aimed_lines(chk, infos, quick, c20, byname):
+    """cases aimed at the rows of the x86-64 pattern table and at the operand forms the property names, instead of leaving
+    them to chance: every (x class, y class) of register / imm8 / imm32 / imm64 / memory of each type for every integer
+    opcode, far (rel32) and near branch targets, 64-bit in-place forms under register pressure with immediates, long double
+    and F/D comparisons and branches on NaN in every shape, special cases (alloca, bstart/bend, switch, laddr/jmpi, calls)"""
+    rng = chk.rng('aimed')
+    lines = []
+    n = [0]
+
+    def cid(p):
+        n[0] += 1
+        return '%s%d' % (p, n[0])
+    tests = [i for i in infos if G.testable(i)]
+    mems = ['m' + t for t in G.MEM_INT_TYPES]
+    for info in tests:
+        if any(k != 'i' for k in info.args) or info.res not in 'i-':
+            continue
+        xcls = ['r', 'i0', 'i2', 'i3'] + mems
+        ycls = xcls if len(info.args) == 2 else [None]
+        if len(info.args) == 2 and 'SH' in info.name:
+            ycls = ['r', 'i0'] + mems
+        combos = [(a, b) for a in xcls for b in ycls]
+        if quick:
+            combos = rng.sample(combos, min(len(combos), 8))
+        branchy = info.res == '-' or info.name in G.OVF
+        for a, b in combos:
+            for far in ((0, 1) if branchy and (not quick or rng.random() < 0.5) else (0,)):
+                ops = [class_operand(a, info, 0, rng, c20)] + ([class_operand(b, info, 1, rng, c20)] if b else [])
+                dst = None
+                if info.res == 'i':
+                    cands = ['r', 'r']
+                    if a == 'r':
+                        cands.append('x')
+                    if b == 'r':
+                        cands.append('y')
+                    if a[0] == 'm':
+                        cands += ['X', 'X']
+                    cands.append(G.mem_desc(rng, rng.choice(G.MEM_INT_TYPES), ['b', 'bd', 'bi', 'bid'] if c20 else G.FORMS))
+                    dst = rng.choice(cands)
+                lines.append(G.gen_case(info, rng, cid('a'), vals=[0] * len(info.args), shapes=[(c or 'r')[0] for c in (a, b) if c],
+                                        dst=dst, c20=c20, far=far, bover=rng.random() < 0.4, optexts=ops, press=0))
+    # the 64-bit in-place forms with an immediate (`op m3, 0, i0/i2`) come from spilled registers only
+    for info in tests:
+        if info.res == 'i' and info.args == 'ii' and info.mask == G.M64 and re.match(r'^(ADD|SUB|AND|OR|XOR|LSH|RSH|URSH)O?$', info.name):
+            for imm in ([3, 0x12345] if 'SH' not in info.name else [3, 40]):
+                for _ in range(1 if quick else 4):
+                    lines.append(G.gen_case(info, rng, cid('k'), vals=[rng.getrandbits(64), imm], shapes=['r', 'i'], dst='x', c20=c20,
+                                            press=rng.choice([24, 28, 30])))
+    # NaN operands of every F / D / LD comparison and compare-and-branch: both positions, register / memory / immediate,
+    # near and far targets, branch over a jump (all five engines run every case)
+    nan = {'f': [0x7fc00000, 0xffc00000, 0x7f800001], 'd': [0x7ff8000000000000, 0xfff8000000000000, 0x7ff0000000000001],
+           'l': [0x7fffc000000000000000, 0xffffc000000000000000, 0x7fffa000000000000000, 0x7fff8000000000000001]}
+    for info in tests:
+        if len(info.args) != 2 or info.args[0] not in 'fdl' or info.args[0] != info.args[1] or info.res not in 'i-':
+            continue
+        k = info.args[0]
+        grid = G.grid_for(k, rng, info.name, 0)
+        for pos in (0, 1, 2):
+            for shapes in (['r', 'r'], ['r', 'm'], ['m', 'r'], ['r', 'i'], ['i', 'r']):
+                if quick and rng.random() < 0.5:
+                    continue
+                vals = [rng.choice(nan[k]) if pos in (i, 2) else rng.choice(grid) for i in (0, 1)]
+                for far in ((0, 1) if info.res == '-' else (0,)):
+                    lines.append(G.gen_case(info, rng, cid('n'), vals=vals, shapes=shapes, dst='r' if info.res == '-' else None, c20=c20,
+                                            far=far, bover=rng.random() < 0.5))
+    # long double conversions at their boundaries (the host compiler's x87 arithmetic is the oracle)
+    ldconv = {'LD2I': [0x403dfffffffffffffffe, 0x403e8000000000000000, 0xc03e8000000000000000, 0xc03e8000000000000001, 0x403dffffffffffffffff,
+                       0x3ffeffffffffffffffff, 0xbffeffffffffffffffff, 0x3fff8000000000000001, 0x4000c000000000000000, 0xc000c000000000000000, 1, 0],
+              'LD2D': [0x3fff8000000000000400, 0x3fff8000000000000c00, 0x3fff8000000000000401, 0x3fff80000000000003ff, 0x43fefffffffffffffc00,
+                       0x43feffffffffffffffff, 0x7ffeffffffffffffffff, 0x3c018000000000000000, 0x3c008000000000000000, 0x3bcd8000000000000000,
+                       0x3bcc8000000000000001, 0x00018000000000000000, 0x7fffc000000000000000, 0xffff8000000000000000, 0x3c00ffffffffffffffff],
+              'LD2F': [0x3fff8000008000000000, 0x3fff8000018000000000, 0x3fff8000008000000001, 0x407effffff8000000000, 0x407effffff0000000000,
+                       0x3f818000000000000000, 0x3f6a8000000000000000, 0x3f698000000000000001, 0x7fffc000000000000000, 0x7ffeffffffffffffffff],
+              'I2LD': [0, 1, G.M64, 1 << 63, (1 << 63) - 1, 0x20000000000001, 0xffffffff80000000],
+              'UI2LD': [0, 1, G.M64, 1 << 63, (1 << 63) - 1, (1 << 63) + 1, 0x20000000000001],
+              'F2LD': [0x00000001, 0x7f7fffff, 0x7fc00000, 0xff800000, 0x80000000], 'D2LD': [1, 0x7fefffffffffffff, 0x7ff8000000000000, 0x8000000000000000]}
+    for name, vs in ldconv.items():
+        info = byname.get(name)
+        if info is None or not G.testable(info):
+            continue
+        for v in (vs if not quick else rng.sample(vs, min(len(vs), 5))):
+            for sh in ('r', 'm', 'i'):
+                lines.append(G.gen_case(info, rng, cid('c'), vals=[v], shapes=[sh], c20=c20))
+    lines += G.special_lines(rng, quick, c20)
+    return lines
+
+
+def row_directed_lines(chk, infos, quick):
+    """three (quick) / six cases of exactly the operand classes of every row of the checked tree's patterns[] (regenerated
+    table, tools/tr_c02_x86pat.rows): register / fixed hard register, imm8 / imm32 / imm64, scale constants, memory of the
+    row's type, same-as-destination operands (in place), near (rel8) resp. far (rel32) branch targets"""
+    import tr_c02_x86pat as X
+    rng = chk.rng('rows')
+    byname = {i.name: i for i in infos}
+    try:
+        rows = X.rows(X.preprocess(vlib.REPO))
+    except Exception:
+        return []
+    lines = []
+    fk = {'f': 'mf', 'd': 'md', 'l': 'mld'}
+    for code, pat, _ in rows:
+        info = byname.get(code)
+        toks = pat.split()
+        if info is None or not G.testable(info) or len(toks) != 1 + len(info.args):
+            continue
+        for rep in range(3 if quick else 6):
+            far = None
+            kinds = info.args
+            srcs = []
+            ok = True
+            for i, t in enumerate(toks[1:]):
+                k = kinds[i]
+                if t == '0':
+                    srcs.append(None)
+                elif k == 'i':
+                    o = x86_operand(t, rng, info, i)
+                    if o is None:
+                        ok = False
+                    srcs.append(o)
+                else:
+                    v = G.rand_val(k, rng, info.name, i)
+                    if t == 'r' or (t == 'mld' and rng.random() < 0.5):
+                        srcs.append('r:%x' % v)
+                    elif t == fk[k]:
+                        srcs.append(G.mem_desc(rng, {'f': 'f', 'd': 'd', 'l': 'ld'}[k]) + ':%x' % v)
+                    else:
+                        ok = False
+                        srcs.append(None)
+            if not ok:
+                break
+            d = toks[0]
+            if info.res == '-':
+                dst = 'r'
+                far = 1 if d == 'L' else 0
+            elif toks[1] == '0':                      # in place: the first source is the destination
+                if info.res != kinds[0]:
+                    break
+                if d.startswith('m') and info.res == 'i':
+                    srcs[0] = x86_operand(d, rng, info, 0)
+                    dst = 'X'
+                else:
+                    srcs[0] = 'r:%x' % G.rand_val(kinds[0], rng, info.name, 0)
+                    dst = 'x'
+            elif d.startswith('m') and info.res == 'i':
+                o = x86_operand(d, rng, info, 0)
+                if o is None:
+                    break
+                dst = o.split(':')[0]
+            elif d in fk.values() and rng.random() < 0.5:
+                dst = G.mem_desc(rng, {'mf': 'f', 'md': 'd', 'mld': 'ld'}[d])
+            else:
+                dst = 'r'
+            if any(x is None for x in srcs):
+                break
+            kk = (info.res if info.res != '-' else '-') + info.args + ('-' if len(info.args) == 1 else '')
+            line = 'R%d %s %s %s %s %s' % (len(lines), info.name, kk, dst, srcs[0], srcs[1] if len(srcs) > 1 else '-')
+            if kinds[0] == 'i' and srcs[0].startswith('r:') and toks[1] == 'r' and dst in ('r', 'x') and info.name not in G.OVF:
+                # a register loaded from memory just before its only use is merged into the instruction (combine): compute
+                # it, so that the register form of the row is what the generator sees
+                line += ' pre=' + rng.choice(G.PRE64)
+            if info.name in G.OVF:
+                sd, ud = info.ovfdef[0] == '1', info.ovfdef[1] == '1'
+                line += ' br=' + rng.choice((['BO', 'BNO'] if sd else []) + (['UBO', 'UBNO'] if ud else []))
+            if far:
+                line += ' far=1'
+            if info.res == '-' and rng.random() < 0.3:
+                line += ' bover=1'
+            lines.append(line)
     return lines
 
 
@@ -512,6 +718,7 @@ def run(chk):
     if os.path.exists(corpus):
         lines += [l.strip() for l in open(corpus) if l.strip() and not l.startswith('#')]
     lines += generate(chk, infos, quick)
+    lines += row_directed_lines(chk, infos, quick)
     tied = [n for k in ('interp', 'gvn', 'peephole') for n in chk.smt['notes'].get(k, [])]
     if tied:
         chk.cov['smt_tied'] = tied
@@ -533,6 +740,8 @@ def run(chk):
         chk.sample(l)
     bad = correspond(chk, exe, oracle, infos, lines)
     report(chk, bad)
+    if not quick or os.environ.get('C02_PATCOV'):
+        pattern_coverage(chk, [c['line'] for c in (G.parse_case(l) for l in lines)], oracle, infos)
     if problems:
         for p in problems:
             chk.finding('tie:' + p[:40], dict(problem=p), p, no_input=True)
@@ -542,6 +751,30 @@ def run(chk):
             found = x86_model_search(chk, exe, oracle, infos, x86bad)
         if not found:
             chk.proof_broken(r, searched='%d one-instruction cases agreed with DocSpec in all engines; table rows evaluated on the grid' % len(lines))
+
+
+def pattern_coverage(chk, lines, oracle, infos):
+    """measurement for the evidence (never a verdict): which rows of patterns[] the cases of this run select"""
+    import gen_c02_patcov as P
+    try:
+        cases = [G.parse_case(l) for l in lines]
+        expectations(cases, infos, oracle)
+        m = P.measure([c['line'] for c in cases if c['exp'] is not None])
+    except Exception as e:
+        m = None
+        chk.notes.append('x86 pattern coverage not measured: %s' % str(e)[:200])
+    if m is None:
+        chk.cov['x86_rows'] = 'not measurable on this tree (anchor line of target_translate not found or build failed)'
+        return
+    un = P.unreachable()
+    never = [dict(index=i, opcode=c, pattern=p, replacement=r, why=un.get((c, p))) for i, c, p, r in m['never']]
+    chk.cov['x86_rows'] = dict(total=m['total'], selected=m['selected'],
+                               never_selected_known_unreachable=len([n for n in never if n['why']]),
+                               never_selected_other=[n for n in never if not n['why']])
+    chk.cov['x86_rows_unreachable'] = sorted(set('%s %s: %s' % (n['opcode'], n['pattern'], n['why']) for n in never if n['why']))
+    chk.log('x86 patterns[]: %d rows, %d selected by the cases of this run, %d never selected for a listed reason, %d others: %s' % (
+        m['total'], m['selected'], len([n for n in never if n['why']]), len([n for n in never if not n['why']]),
+        ' | '.join('%s %s' % (n['opcode'], n['pattern']) for n in never if not n['why'])[:400]))
 
 
 def x86_rejected_rows():
